@@ -235,8 +235,16 @@ class TlcResult:
                 res.append(s)
         return res
 
-    def json_lines(self, prefix):
-        return [json.loads(s) for s in self.lines(prefix)]
+    def json_lines(self, prefix, unique=True):
+        """Payloads parsed as JSON; duplicates removed (TLC evaluates a constraint more than once per state)."""
+        out, seen = [], set()
+        for s in self.lines(prefix):
+            if unique:
+                if s in seen:
+                    continue
+                seen.add(s)
+            out.append(json.loads(s))
+        return out
 
     def require_clean(self, what=""):
         """For exhaustive model runs: anything but a completed, violation-free run is inconclusive
